@@ -108,6 +108,14 @@ def check_malformed(inp, mods, rng=None):
             F.append(({'C09', 'C12'}, 'batch-records-message', f'[{inp["rule"]}] batch entry message is {res["bad"]["msg"]!r} for the malformed game {g!r}'))
         if res['bad_no_prune']['msg'] != 'Game not solved' or res['good']['msg'] != 'Game solved':
             F.append(({'C09', 'C12'}, 'batch-continues', f'[{inp["rule"]}] messages: {[(k, v["msg"]) for k, v in res.items()]}'))
+        # "returns no result": also when the malformed game comes AFTER a solved one, its entries carry a message and nothing else
+        res2 = cr.run_games({'good': copy.deepcopy(ok), 'bad': copy.deepcopy(g)})
+        for key in ('bad', 'bad_no_prune'):
+            e_ = res2[key]
+            carried = {f: e_[f] for f in ('reachability_strategies', 'final_strategies', 'rewards', 'probabilities') if e_[f] is not None}
+            if carried or e_['msg'] == 'Game solved':
+                F.append(({'C09', 'C12'}, 'failure-entry-empty', f'[{inp["rule"]}] after a solved game, the entry {key!r} of the malformed game says {e_["msg"]!r} and carries results {carried!r}'))
+                break
     except BaseException as e:   # noqa
         F.append(({'C09', 'C12'}, 'batch-does-not-crash', f'[{inp["rule"]}] run_games raised {type(e).__name__}: {e} for {g!r}'))
     finally:
